@@ -113,6 +113,9 @@ func (r *recorder) GetCodeHash(a common.Address) common.Hash {
 func (r *recorder) GetCode(a common.Address) []byte {
 	v := r.inner.GetCode(a)
 	r.add("gc:" + ha(a) + "=" + hb(v))
+	if obs != nil {
+		obs.pendingCode = v
+	}
 	return v
 }
 func (r *recorder) SetCode(a common.Address, c []byte) {
@@ -450,6 +453,9 @@ func runCall(cfg int, gas uint64, value *big.Int, to common.Address, code, input
 	w := newWorld(code, aux)
 	cur = w.rec
 	obs = &stepObs{}
+	if to == target {
+		obs.topCode = code
+	}
 	e := w.evm(gas)
 	head := fmt.Sprintf("call %d %d %s %s %s %s ", cfg, gas, hexTok(value.Bytes()), ha(to), hexTok(input), ctxToken(gas))
 	_, isPre := vm.PrecompiledContracts[to]
@@ -470,6 +476,9 @@ func runStatic(cfg int, gas uint64, to common.Address, code, input, aux []byte) 
 	w := newWorld(code, aux)
 	cur = w.rec
 	obs = &stepObs{}
+	if to == target {
+		obs.topCode = code
+	}
 	e := w.evm(gas)
 	head := fmt.Sprintf("scall %d %d %s %s %s ", cfg, gas, ha(to), hexTok(input), ctxToken(gas))
 	_, isPre := vm.PrecompiledContracts[to]
@@ -486,7 +495,7 @@ func runCreate(cfg int, gas uint64, value *big.Int, init []byte, aux []byte) (st
 	setConfig(cfg)
 	w := newWorld(nil, aux)
 	cur = w.rec
-	obs = &stepObs{}
+	obs = &stepObs{topCode: init}
 	e := w.evm(gas)
 	head := fmt.Sprintf("create %d %d %s %s %s ", cfg, gas, hexTok(value.Bytes()), hexTok(init), ctxToken(gas))
 	run := func() string {
